@@ -275,11 +275,11 @@ fn run_mode(a: &Args, mode: &'static str) -> Collector {
     let mut c = Collector::new(mode);
     let values = match (mode, a.thorough) {
         ("decl", false) => 30,
-        ("decl", true) => 400,
+        ("decl", true) => 150,
         (_, false) => 8,
         (_, true) => 60,
     };
-    let mut vis = Vis { r: Rng::new(a.seed), c: &mut c, q: vec![], values, mode, idx: 0, tamper_values: if a.thorough { 40 } else { 4 } };
+    let mut vis = Vis { r: Rng::new(a.seed), c: &mut c, q: vec![], values, mode, idx: 0, tamper_values: if a.thorough { 16 } else { 4 } };
     if mode == "decl" {
         visit_decls(&mut vis);
         visit_exts(&mut vis);
